@@ -190,6 +190,10 @@ func roundTripPromised(s Session, r *sessRun) (bool, *Val, string) {
 	if _, ok := r.FSPost[0].Files[f0.output]; !ok {
 		return false, nil, ""
 	}
+	// "jd [flags] a b" then "jd -p [flags]": the same flags on both sides
+	if f0.format != fl.format && !(isJd(f0.format) && isJd(fl.format)) || f0.yaml != fl.yaml || f0.set != fl.set || f0.mset != fl.mset || f0.setkeys != fl.setkeys || f0.v2 != fl.v2 || s.Procs[0].Bin != s.Procs[len(s.Procs)-1].Bin {
+		return false, nil, ""
+	}
 	srcText, tgtText := "", ""
 	for _, f := range s.Files {
 		if f.Name == rt.Target {
@@ -221,6 +225,8 @@ func roundTripPromised(s Session, r *sessRun) (bool, *Val, string) {
 	return true, tgt, tgtText
 }
 
+func isJd(f string) bool { return f == "" || f == "jd" }
+
 func checkRoundTrip(s Session, r *sessRun) *Violation {
 	ok, tgt, tgtText := roundTripPromised(s, r)
 	if !ok {
@@ -234,6 +240,11 @@ func checkRoundTrip(s Session, r *sessRun) *Violation {
 		return nil // reported by compareToModel / C13
 	}
 	if res.Code != 0 {
+		if s.RT.Eps > 0 && roundTripWorksWithoutPrecision(s) {
+			v := viol14("round-trip-status", p, e, "with -precision %g the diff omits differences within the tolerance but keeps the second input's elements as list context, which the first input does not match exactly: `jd %s` then `jd %s` failed with status %d: %s (the same session without -precision round-trips)", s.RT.Eps, strings.Join(s.Procs[0].Argv, " "), strings.Join(p.Argv, " "), res.Code, show(maskStamp(res.Stderr)))
+			v.Tag = "precision-shifts-list-context"
+			return v
+		}
 		return viol14("round-trip-status", p, e, "applying the output of `jd %s` with `jd %s` failed with status %d: %s", strings.Join(s.Procs[0].Argv, " "), strings.Join(p.Argv, " "), res.Code, show(maskStamp(res.Stderr)))
 	}
 	f := parseArgv(p.Argv)
@@ -586,6 +597,9 @@ func (ci *caseInfo) fill(s Session, r *sessRun, v Variant, fired []simos.Fault) 
 // v1 library, asked through its public API, considers equal as set members.
 // It is only used to label a failing round trip, never to excuse one silently.
 func v1HashAliasing(s Session, m cmpMode) bool {
+	// members of any array of either document: the lost or confused member may
+	// sit in the source while its alias sits in the target
+	var members []*Val
 	for _, f := range s.Files {
 		if f.Name != s.RT.Source && f.Name != s.RT.Target {
 			continue
@@ -595,18 +609,21 @@ func v1HashAliasing(s Session, m cmpMode) bool {
 			continue
 		}
 		for _, c := range containers(v, nil) {
-			if c.K != 'a' {
+			if c.K == 'a' {
+				members = append(members, c.Elems...)
+			}
+		}
+	}
+	if len(members) > 80 {
+		members = members[:80]
+	}
+	for i := 0; i < len(members); i++ {
+		for j := i + 1; j < len(members); j++ {
+			if equalVals(members[i], members[j], m) {
 				continue
 			}
-			for i := 0; i < len(c.Elems); i++ {
-				for j := i + 1; j < len(c.Elems); j++ {
-					if equalVals(c.Elems[i], c.Elems[j], m) {
-						continue
-					}
-					if v1SetEqual("["+c.Elems[i].JSON(0)+"]", "["+c.Elems[j].JSON(0)+"]") {
-						return true
-					}
-				}
+			if v1SetEqual("["+members[i].JSON(0)+"]", "["+members[j].JSON(0)+"]") {
+				return true
 			}
 		}
 	}
@@ -760,11 +777,44 @@ func statusVsDocuments(s Session, r *sessRun, i int, pre *simos.FS) *Violation {
 		v.Tag = "precision-inside-array"
 	}
 	if where14(p, e)[:6] == "top-v1" && m.Arrays != "list" {
-		s2 := s
-		s2.RT = &RoundTrip{Source: f.args[0], Target: f.args[len(f.args)-1], YAML: f.yaml}
-		if len(f.args) == 2 && v1HashAliasing(s2, m) {
+		s2 := Session{Files: []File{{"a", Blob(at)}, {"b", Blob(bt)}}, RT: &RoundTrip{Source: "a", Target: "b", YAML: f.yaml}}
+		if v1HashAliasing(s2, m) {
 			v.Tag = "v1-set-hash-aliasing"
 		}
 	}
 	return v
+}
+
+// stripPrecision removes -precision from an argv.
+func stripPrecision(argv []string) []string {
+	var out []string
+	for i := 0; i < len(argv); i++ {
+		a := strings.TrimLeft(argv[i], "-")
+		if strings.HasPrefix(argv[i], "-") && a == "precision" {
+			i++ // value in the next token
+			continue
+		}
+		if strings.HasPrefix(argv[i], "-") && strings.HasPrefix(a, "precision=") {
+			continue
+		}
+		out = append(out, argv[i])
+	}
+	return out
+}
+
+// roundTripWorksWithoutPrecision re-runs a round-trip session with -precision
+// removed on both sides and reports whether it then reproduces the second
+// input exactly. Used only to label a failing round trip.
+func roundTripWorksWithoutPrecision(s Session) bool {
+	s2 := s
+	s2.Procs = append([]ProcSpec(nil), s.Procs...)
+	for i := range s2.Procs {
+		s2.Procs[i].Argv = stripPrecision(s.Procs[i].Argv)
+	}
+	rt := *s.RT
+	rt.Eps = 0
+	s2.RT = &rt
+	r := runSession(s2, fsFromFiles(s2.Files, s2.Dirs), false, false)
+	ok, _, _ := roundTripPromised(s2, r)
+	return ok && checkRoundTrip(s2, r) == nil
 }
